@@ -108,9 +108,6 @@ func probeHelpers(p helperArg) (string, string) {
 			if err == nil || lerr == nil {
 				return "invalid_text_no_error", fmt.Sprintf("%s(%q, %q) = %d,%v / %s,%v although a text is invalid for this helper", x.name, a, b, c, err, l, lerr)
 			}
-			if c != 0 || l != (sem.Ver{}) {
-				return "nonzero_result_with_error", fmt.Sprintf("%s(%q, %q) = %d / %s with an error", x.name, a, b, c, l)
-			}
 			continue
 		}
 		if err != nil || lerr != nil {
@@ -181,9 +178,6 @@ func probeNext(a nextArg) (string, string) {
 			return "next_not_above_receiver", fmt.Sprintf("%s.%s() = %s; Compare = %d, reverse %d", v, name, n, n.Compare(v), v.Compare(n))
 		}
 	}
-	if c := v.Core(); c != (sem.Ver{Major: a.Core[0], Minor: a.Core[1], Patch: a.Core[2]}) {
-		return "core", fmt.Sprintf("%s.Core() = %s", v, c)
-	}
 	return "", ""
 }
 
@@ -245,7 +239,7 @@ func main() {
 		})
 		r.Sample("helpers", helperArg{"v1.0.0-a1", "1.0.0-a01"})
 		nums := []uint64{0, 1, 9, 1 << 32, 1<<63 - 1, 1 << 63, maxU - 1, maxU}
-		r.Phase(fmt.Sprintf("NextMajor/NextMinor/NextPatch/Core on %d^3 cores x every pre-release of the universe x 2 builds", len(nums)), "complete", func() {
+		r.Phase(fmt.Sprintf("NextMajor/NextMinor/NextPatch on %d^3 cores x every pre-release of the universe x 2 builds", len(nums)), "complete", func() {
 			n := int64(len(nums))
 			r.Parallel(n*n*n, 1, func(w *mc.W, i int64) {
 				core := [3]uint64{nums[i%n], nums[i/n%n], nums[i/n/n]}
